@@ -1,5 +1,6 @@
 import BitbybitModel.Lemmas.BuilderChain
 import BitbybitModel.Props.Examples
+import BitbybitModel.Props.C12
 /-!
 # C13 — `builder()…build()` equals the default with every field written
 
@@ -86,5 +87,16 @@ theorem array_calls_indexed (s : BuilderStep) (elems : List (Val × Nat)) (c st 
         = fun e => e.1 := rfl
     rw [this]
     simp [List.zipIdx_map_fst]
+
+
+/-- **the builder's result is that of writing the same fields with `with_` / `set_` in any order.** A builder is offered
+    only when no position is writable twice (C14), so its calls are pairwise `C12.Apart`; then any permutation of the calls,
+    run from the same start value, ends in the register `build()` returns -/
+theorem builder_order_irrelevant (Γ : CustomEnv) (chk : Bool) (B : Base) (hB : B.WF) (steps : List BuilderStep)
+    (args : List BuilderArg) (calls' : List Step) (init t t' : Nat) (hinit : init < 2 ^ B.internal)
+    (hok : ∀ st ∈ chainCalls steps args, st.Ok Γ B) (hp : (chainCalls steps args).Perm calls')
+    (hdis : ((chainCalls steps args).map Step.toOp).Pairwise C12.Apart)
+    (hrun : Runs Γ chk B init (chainCalls steps args) t) (hrun' : Runs Γ chk B init calls' t') : t' = t :=
+  (C12.history_order_independent Γ chk B hB _ calls' init t t' hinit hok hp hdis hrun hrun').symm
 
 end Bb.C13
